@@ -110,6 +110,8 @@ pub enum Prov {
 pub struct SlotVal {
     pub zone: TimeZone,
     pub prov: Prov,
+    /// heap blocks the library allocated for this zone (address, size): what a `&self` call must not modify
+    pub blocks: Arc<Vec<(usize, usize)>>,
 }
 
 pub const NSLOTS: usize = 8;
@@ -159,7 +161,7 @@ pub struct Outcome {
 }
 
 struct Shared {
-    pool: Vec<Option<(Arc<TimeZone>, Prov)>>,
+    pool: Vec<Option<(Arc<TimeZone>, Prov, Arc<Vec<(usize, usize)>>)>>,
     records: Vec<OpRec>,
 }
 
@@ -195,6 +197,10 @@ pub struct Ctx<'a> {
 pub struct Meas {
     /// first change of the executable's writable static data during the call: (offset, old, new)
     pub static_write: Option<(usize, u8, u8)>,
+    /// first request to the operating system that bypassed the simulator's seams: (kind, count, what)
+    pub ambient: Option<(usize, u64, String)>,
+    /// heap blocks allocated during the call and still live (when recording was requested)
+    pub blocks: Option<Vec<(usize, usize)>>,
     before: isize,
     pub peak: isize,
     pub allocs: u64,
@@ -217,6 +223,11 @@ pub fn measured<T>(forbid: bool, f: impl FnOnce() -> T) -> (Result<T, String>, M
 /// Same; `statics` = the call crosses no harness seam, so the executable's writable static data
 /// must be bit-identical afterwards.
 pub fn measured_x<T>(forbid: bool, statics: bool, f: impl FnOnce() -> T) -> (Result<T, String>, Meas) {
+    measured_full(forbid, statics, false, f)
+}
+
+/// `record` = also return the heap blocks the call left allocated (the memory of the value it returned).
+pub fn measured_full<T>(forbid: bool, statics: bool, record: bool, f: impl FnOnce() -> T) -> (Result<T, String>, Meas) {
     if statics {
         crate::statics::prepare();
     }
@@ -229,11 +240,17 @@ pub fn measured_x<T>(forbid: bool, statics: bool, f: impl FnOnce() -> T) -> (Res
     if statics {
         crate::statics::snapshot();
     }
+    let seam0 = if statics { crate::seam::snapshot() } else { [0; 5] };
+    if record {
+        alloc::record_start();
+    }
     let r = catch_unwind(AssertUnwindSafe(f));
+    let blocks = if record { harness(alloc::record_take) } else { None };
+    let ambient = if statics && r.is_ok() { harness(|| crate::seam::delta(&seam0)) } else { None };
     let static_write = if statics && r.is_ok() { crate::statics::changed().or_else(|| crate::statics::tls_changed().map(|(o, a, b)| (usize::MAX - o, a, b))) } else { None };
     alloc::set_forbid(false);
     let peak = alloc::peak();
-    let m = Meas { static_write, before, peak, allocs: alloc::count() - c0, forbid_hits: alloc::forbid_hits() - f0, max_req: alloc::max_request() };
+    let m = Meas { static_write, ambient, blocks, before, peak, allocs: alloc::count() - c0, forbid_hits: alloc::forbid_hits() - f0, max_req: alloc::max_request() };
     let r = match r {
         Ok(t) => Ok(t),
         Err(_) => Err(harness(|| LAST_PANIC.with(|p| p.borrow().clone()))),
@@ -244,34 +261,54 @@ pub fn measured_x<T>(forbid: bool, statics: bool, f: impl FnOnce() -> T) -> (Res
 // ------------------------------------------------------------------ zone handles
 
 pub enum ZH<'a> {
-    Owned(&'a TimeZone),
-    Shared(Arc<TimeZone>),
+    Owned(&'a TimeZone, Arc<Vec<(usize, usize)>>),
+    Shared(Arc<TimeZone>, Arc<Vec<(usize, usize)>>),
     Konst(TimeZoneRef<'static>),
 }
 
 impl<'a> ZH<'a> {
     pub fn r(&self) -> TimeZoneRef<'_> {
         match self {
-            ZH::Owned(z) => z.as_ref(),
-            ZH::Shared(a) => a.as_ref().as_ref(),
+            ZH::Owned(z, _) => z.as_ref(),
+            ZH::Shared(a, _) => a.as_ref().as_ref(),
             ZH::Konst(k) => *k,
         }
     }
     pub fn tz(&self) -> Option<&TimeZone> {
         match self {
-            ZH::Owned(z) => Some(z),
-            ZH::Shared(a) => Some(a),
+            ZH::Owned(z, _) => Some(z),
+            ZH::Shared(a, _) => Some(a),
             ZH::Konst(_) => None,
         }
+    }
+    /// FNV-style digest of the zone's own heap blocks
+    pub fn blocks_digest(&self) -> u64 {
+        let b = match self {
+            ZH::Owned(_, b) | ZH::Shared(_, b) => b,
+            ZH::Konst(_) => return 0,
+        };
+        let mut h: u64 = 0xcbf2_9ce4_8422_2325;
+        for (a, n) in b.iter() {
+            // SAFETY: the block was allocated for this zone by the library and the zone is alive (we hold a reference)
+            let bytes = unsafe { std::slice::from_raw_parts(*a as *const u8, *n) };
+            let mut chunks = bytes.chunks_exact(8);
+            for c in &mut chunks {
+                h = (h ^ u64::from_le_bytes(c.try_into().unwrap())).wrapping_mul(0x0000_0100_0000_01B3);
+            }
+            for x in chunks.remainder() {
+                h = (h ^ *x as u64).wrapping_mul(0x0000_0100_0000_01B3);
+            }
+        }
+        h
     }
 }
 
 fn handle<'a>(st: &'a ActorState<'_>, z: &ZRef) -> Option<(ZH<'a>, Option<Prov>)> {
     match z {
-        ZRef::P(k) => st.slots[k % NSLOTS].as_ref().map(|s| (ZH::Owned(&s.zone), Some(s.prov.clone()))),
+        ZRef::P(k) => st.slots[k % NSLOTS].as_ref().map(|s| (ZH::Owned(&s.zone, s.blocks.clone()), Some(s.prov.clone()))),
         ZRef::S(k) => {
             let g = shared();
-            g.as_ref().and_then(|s| s.pool[k % NPOOL].as_ref().map(|(a, p)| (ZH::Shared(a.clone()), Some(p.clone()))))
+            g.as_ref().and_then(|s| s.pool[k % NPOOL].as_ref().map(|(a, p, b)| (ZH::Shared(a.clone(), b.clone()), Some(p.clone()))))
         }
         ZRef::U => Some((ZH::Konst(TimeZoneRef::utc()), None)),
         ZRef::K(k) => Some((ZH::Konst(kzone(*k)), None)),
@@ -372,7 +409,14 @@ pub fn eval_query(op: &Op, zh: Option<&ZH>, toh: Option<&ZH>, buf: Option<&mut V
     macro_rules! run {
         ($forbid:expr, $e:expr) => {{
             // (the harness's own statics that the clock seam touches are excluded from the comparison)
+            let zdig = zh.map_or(0, |h| h.blocks_digest()) ^ toh.map_or(0, |h| h.blocks_digest().rotate_left(1));
             let (r, m) = measured_x($forbid, true, || $e);
+            if zh.map_or(0, |h| h.blocks_digest()) ^ toh.map_or(0, |h| h.blocks_digest().rotate_left(1)) != zdig {
+                harness(|| q.findings.push(("C15.interior_write".into(), "zone-memory-modified".into(), format!("{}: a call through a shared reference modified the heap memory of the zone it was given (hidden interior mutability)", op.text()))));
+            }
+            if let Some((k, n, what)) = &m.ambient {
+                harness(|| q.findings.push(("C15.ambient_read".into(), crate::seam::KINDS[*k].replace(' ', "-"), format!("{}: the call asked the operating system for the {} {n} time(s) (last: {what:?}) - state the simulator does not own and the result must not depend on", op.text(), crate::seam::KINDS[*k]))));
+            }
             if let Some((off, old, new)) = m.static_write {
                 harness(|| q.findings.push(("C15.static_write".into(), "static-data-written".into(), format!("{}: the call changed process-global state ({}: {old:#04x} -> {new:#04x}); no operation may write statics or thread-locals", op.text(), crate::statics::describe(off)))));
             }
@@ -857,7 +901,7 @@ pub fn run_op<'c>(ctx: &'c Ctx<'c>, me: usize, st: &mut ActorState<'c>, opi: usi
                 st.settings = Some(TimeZoneSettings::new(&ctx.dirs_all[..], sim_read));
             }
             let persistent = if full_list { st.settings.as_ref() } else { None };
-            let (r, m) = measured_x(false, true, || {
+            let (r, m) = measured_full(false, true, true, || {
                 let fresh;
                 let settings = match persistent {
                     Some(s) => s,
@@ -874,6 +918,15 @@ pub fn run_op<'c>(ctx: &'c Ctx<'c>, me: usize, st: &mut ActorState<'c>, opi: usi
             });
             if let Some(w) = lock().as_mut() {
                 w.in_resolve[me] = false;
+            }
+            if let Some((k, n, what)) = &m.ambient {
+                harness(|| {
+                    let d = format!("resolving {tzv:?} through the injected reader also asked the operating system for the {} {n} time(s) (last: {what:?})", crate::seam::KINDS[*k]);
+                    push_violation(armed, "C15.ambient_read", &crate::seam::KINDS[*k].replace(' ', "-"), d.clone());
+                    if *k == 2 || *k == 3 {
+                        push_violation(armed, "C20.open_history", "bypassed-the-read-function", d);
+                    }
+                });
             }
             if let Some((off, old, new)) = m.static_write {
                 harness(|| push_violation(armed, "C15.static_write", "static-data-written", format!("resolving {tzv:?} changed process-global state ({}: {old:#04x} -> {new:#04x}); no operation may write statics or thread-locals", crate::statics::describe(off))));
@@ -935,19 +988,31 @@ pub fn run_op<'c>(ctx: &'c Ctx<'c>, me: usize, st: &mut ActorState<'c>, opi: usi
             if let Res::Panic(p) = &res {
                 panicked = Some(p.clone());
             }
-            // store
-            let stored = harness(|| match &r {
-                Ok(Ok(z)) => {
+            // store: the very value the library returned moves into the slot, together with the list of
+            // heap blocks the library allocated for it
+            harness(|| drop(res));
+            let kept: isize = m.blocks.as_ref().map_or(0, |b| b.iter().map(|x| x.1 as isize).sum());
+            let recorded = m.blocks.is_some();
+            // what is not kept is released here, outside any harness section: it is the library's memory
+            let zone_opt = match r {
+                Ok(Ok(z)) => Some(z),
+                other => {
+                    drop(other);
+                    None
+                }
+            };
+            let stored = harness(|| {
+                zone_opt.map(|z| {
                     let prov = match reads.iter().rev().find(|r| r.res.is_ok()) {
                         Some(w) => Prov::Bytes(w.res.as_ref().ok().unwrap().0.clone()),
                         None => Prov::Desc(Arc::new(oracle_trim(&tzv))),
                     };
-                    Some(SlotVal { zone: z.clone(), prov })
-                }
-                _ => None,
+                    SlotVal { zone: z, prov, blocks: Arc::new(m.blocks.clone().unwrap_or_default()) }
+                })
             });
-            drop(r);
-            retained = Some((m.retained(), "resolve"));
+            if recorded {
+                retained = Some((m.retained() - if stored.is_some() { kept } else { 0 }, "resolve"));
+            }
             harness(|| {
                 st.slots[slot % NSLOTS] = stored;
                 if let Some(rec) = rec.as_mut() {
@@ -973,7 +1038,7 @@ pub fn run_op<'c>(ctx: &'c Ctx<'c>, me: usize, st: &mut ActorState<'c>, opi: usi
                             w.stats.fault(f.kind());
                         }
                     }
-                    let (r, m) = measured_x(false, true, || TimeZone::from_tz_data(&bytes));
+                    let (r, m) = measured_full(false, true, true, || TimeZone::from_tz_data(&bytes));
                     if let Some((off, old, new)) = m.static_write {
                         push_violation(armed, "C15.static_write", "static-data-written", format!("decoding changed process-global state ({}: {old:#04x} -> {new:#04x})", crate::statics::describe(off)));
                     }
@@ -1019,12 +1084,20 @@ pub fn run_op<'c>(ctx: &'c Ctx<'c>, me: usize, st: &mut ActorState<'c>, opi: usi
                     if let Res::Panic(p) = &res {
                         panicked = Some(p.clone());
                     }
-                    let stored = harness(|| match &r {
-                        Ok(Ok(z)) => Some(SlotVal { zone: z.clone(), prov: Prov::Bytes(bytes.clone()) }),
-                        _ => None,
-                    });
-                    drop(r);
-                    retained = Some((m.retained(), "decode"));
+                    harness(|| drop(res));
+                    let kept: isize = m.blocks.as_ref().map_or(0, |b| b.iter().map(|x| x.1 as isize).sum());
+                    let recorded = m.blocks.is_some();
+                    let zone_opt = match r {
+                        Ok(Ok(z)) => Some(z),
+                        other => {
+                            drop(other);
+                            None
+                        }
+                    };
+                    let stored = harness(|| zone_opt.map(|z| SlotVal { zone: z, prov: Prov::Bytes(bytes.clone()), blocks: Arc::new(m.blocks.clone().unwrap_or_default()) }));
+                    if recorded {
+                        retained = Some((m.retained() - if stored.is_some() { kept } else { 0 }, "decode"));
+                    }
                     harness(|| st.slots[slot % NSLOTS] = stored);
                 }
             }
@@ -1083,7 +1156,12 @@ pub fn run_op<'c>(ctx: &'c Ctx<'c>, me: usize, st: &mut ActorState<'c>, opi: usi
             let _ = write!(out, "resized({n})");
         }
         Op::Share { slot, pool } => {
-            let v = st.slots[slot % NSLOTS].as_ref().map(|s| (Arc::new(s.zone.clone()), s.prov.clone()));
+            let v = st.slots[slot % NSLOTS].as_ref().map(|s| {
+                alloc::record_start();
+                let a = Arc::new(s.zone.clone());
+                let b = alloc::record_take().unwrap_or_default();
+                (a, s.prov.clone(), Arc::new(b))
+            });
             let some = v.is_some();
             if let Some(s) = shared().as_mut() {
                 if some {
@@ -1097,7 +1175,12 @@ pub fn run_op<'c>(ctx: &'c Ctx<'c>, me: usize, st: &mut ActorState<'c>, opi: usi
         }
         Op::CloneZ { z, slot } => {
             let v = handle(st, z).and_then(|(h, p)| match (h.tz(), p) {
-                (Some(t), Some(p)) => Some(SlotVal { zone: t.clone(), prov: p }),
+                (Some(t), Some(p)) => {
+                    alloc::record_start();
+                    let zc = t.clone();
+                    let b = alloc::record_take().unwrap_or_default();
+                    Some(SlotVal { zone: zc, prov: p, blocks: Arc::new(b) })
+                }
                 _ => None,
             });
             let _ = write!(out, "cloned({})", v.is_some());
@@ -1582,13 +1665,13 @@ fn alone_in_process(rec: &OpRec) -> Option<(String, Option<String>)> {
             let zh = match (&zref, &zfresh) {
                 (Some(ZRef::U), _) => Some(ZH::Konst(TimeZoneRef::utc())),
                 (Some(ZRef::K(k)), _) => Some(ZH::Konst(kzone(*k))),
-                (Some(_), Some(z)) => Some(ZH::Owned(z)),
+                (Some(_), Some(z)) => Some(ZH::Owned(z, Arc::new(Vec::new()))),
                 _ => None,
             };
             let toh = match (&toref, &tofresh) {
                 (Some(ZRef::U), _) => Some(ZH::Konst(TimeZoneRef::utc())),
                 (Some(ZRef::K(k)), _) => Some(ZH::Konst(kzone(*k))),
-                (Some(_), Some(z)) => Some(ZH::Owned(z)),
+                (Some(_), Some(z)) => Some(ZH::Owned(z, Arc::new(Vec::new()))),
                 _ => None,
             };
             if needs_z && zh.is_none() && rec.canon.starts_with("skip") {
